@@ -228,7 +228,7 @@ func checkC06(c *Ctx) {
 				continue
 			}
 			r.Func(fk(fn))
-			gNotOwner := core.EqGuard("t.owner!="+up.Name(), core.IsFieldLoad(owner), func(v ssa.Value) bool { return core.Strip(v) == ssa.Value(up) || c.rootValue(v) == c.rootValue(up) }, false)
+			gNotOwner := core.EqGuard("t.owner!="+fk(up.Parent())+"."+up.Name(), core.IsFieldLoad(owner), func(v ssa.Value) bool { return core.Strip(v) == ssa.Value(up) || c.rootValue(v) == c.rootValue(up) }, false)
 			construct := fmt.Sprintf("%s: Subs.Update(%s, ModeGiven...)", fk(fn), up.Name())
 			// the sink is the selfupdate when the same function also strips a previous owner (has OwnerChange)
 			isSelfPath := c.callsDeep(fn, ownerChange, 2)
@@ -264,7 +264,7 @@ func checkC06(c *Ctx) {
 				gNoO := core.BoolGuard("!mode.IsOwner()", core.IsCallTo(isOwner, ld), false)
 				ok := false
 				for _, p := range ups {
-					gActorOwner := core.EqGuard("t.owner=="+p.Name(), core.IsFieldLoad(owner), func(v ssa.Value) bool { return core.Strip(v) == ssa.Value(p) || c.rootValue(v) == c.rootValue(p) }, true)
+					gActorOwner := core.EqGuard("t.owner=="+fk(p.Parent())+"."+p.Name(), core.IsFieldLoad(owner), func(v ssa.Value) bool { return core.Strip(v) == ssa.Value(p) || c.rootValue(v) == c.rootValue(p) }, true)
 					if g, cnt := core.GuardedBy(sink.Parent(), sink, gNoO, gActorOwner); g && cnt[0] > 0 && cnt[1] > 0 {
 						ok = true
 					}
@@ -436,7 +436,7 @@ func (c *Ctx) checkOwnerOnlyOps() {
 			// group topics: behind t.owner == requester. (me/fnd/p2p descriptions belong to the user.)
 			ok := c.liftToCallers(fn, call, 0, func(f *ssa.Function, at ssa.Instruction) bool {
 				for _, p := range uidParams(f) {
-					gOwner := core.EqGuard("t.owner=="+p.Name(), core.IsFieldLoad(owner), func(v ssa.Value) bool { return core.Strip(v) == ssa.Value(p) }, true)
+					gOwner := core.EqGuard("t.owner=="+fk(p.Parent())+"."+p.Name(), core.IsFieldLoad(owner), func(v ssa.Value) bool { return core.Strip(v) == ssa.Value(p) }, true)
 					gNotGrp := core.EqGuard("t.cat!=Grp", core.IsFieldLoad(catF), core.IsConstOf(grp), false)
 					if g, cnt := core.GuardedByNil(f, at, gOwner, gNotGrp); g && cnt[0] > 0 {
 						return true
@@ -488,7 +488,7 @@ func (c *Ctx) checkOwnerOnlyOps() {
 				ok := c.liftToCallers(fn, ref, 0, func(f *ssa.Function, at ssa.Instruction) bool {
 					var gs []core.Guard
 					for _, p := range uidParams(f) {
-						gs = append(gs, core.EqGuard("t.owner=="+p.Name(), core.IsFieldLoad(owner), func(v ssa.Value) bool { return core.Strip(v) == ssa.Value(p) }, true))
+						gs = append(gs, core.EqGuard("t.owner=="+fk(p.Parent())+"."+p.Name(), core.IsFieldLoad(owner), func(v ssa.Value) bool { return core.Strip(v) == ssa.Value(p) }, true))
 					}
 					if len(gs) == 0 {
 						return false
@@ -511,7 +511,7 @@ func (c *Ctx) checkOwnerOnlyOps() {
 			r.Func(fk(fn))
 			var gs []core.Guard
 			for _, p := range uidParams(fn) {
-				gs = append(gs, core.EqGuard("t.owner=="+p.Name(), core.IsFieldLoad(owner), func(v ssa.Value) bool { return core.Strip(v) == ssa.Value(p) }, true))
+				gs = append(gs, core.EqGuard("t.owner=="+fk(p.Parent())+"."+p.Name(), core.IsFieldLoad(owner), func(v ssa.Value) bool { return core.Strip(v) == ssa.Value(p) }, true))
 			}
 			// local variables of type Uid compared with t.owner (asUid parsed from the message)
 			gs = append(gs, core.EqGuard("t.owner==asUid", core.IsFieldLoad(owner), func(v ssa.Value) bool {
